@@ -194,7 +194,7 @@ def gen(tier, seed):
 RULE = ('one config = struct or enum (1-3 variants) whose variants are drawn from {named, tuple} x 1..3 fields x every Deref marker position x every type-compatible DerefMut marker position '
         'x designated field type {u8, &u8, &&u8, &mut u8} x single-field shortcut with/without marker; the value (variant, all fields) and the written byte are arbitrary. '
         'Pointer identity is asserted, so a neighbour field of the same value cannot pass. Non-trivial = all harnesses passed with their reachability witness SATISFIED.')
-BOUNDS = dict(max_fields=3, max_variants=3, target='u8', outside=['generic targets', '>3 fields/variants'])
+BOUNDS = dict(max_fields='3; plus 4- and 5-field variants with the marker at every position', max_variants=3, target='u8', outside=['generic targets', '>3 fields/variants'])
 ASSUME = ['Kani 0.68 / CBMC 6.11 / CaDiCaL; rustc nightly-2026-08-21 x86_64 dev profile', 'reference-typed fields point into 4-element statics',
           'oracle (designated field address, snapshot of all fields) written from the config by vk/p_c09.py']
 
